@@ -52,6 +52,9 @@ class Module:
             self.tree = ast.parse(text, filename=path)
         except SyntaxError as exc:  # the tree must at least compile
             raise AnalysisError(f"syntax error in {relpath}: {exc}") from exc
+        from .normalise import normalise_module
+
+        normalise_module(self.tree, name)
         for node in ast.walk(self.tree):
             for child in ast.iter_child_nodes(node):
                 PARENTS[id(child)] = node
